@@ -34,7 +34,11 @@ def record(case):
             w.daemon.set_chain(blocks[:restart_at + 1])
             w.flush_schedule = fmap
             w.start_sync()
-            w.run_until_caught_up()
+            try:
+                w.run_until_caught_up()
+            except (world.SyncFailed, world.Stalled) as e:
+                raise UninterruptedWrong('the run before the restart died: ' +
+                                         repr(e.args[0] if e.args else e)[:200])
             w.close(destroy=False)
             marks.append((0, restart_at))
             m0.log.clear()
@@ -45,10 +49,14 @@ def record(case):
         w.flush_schedule = fmap
         w.on_full_flush = lambda w: marks.append((len(m0.log), w.db.state.height))
         w.start_sync()
-        w.run_until_caught_up()
-        if grow_at:
-            w.daemon.set_chain(blocks)
-            w.poll()
+        try:
+            w.run_until_caught_up()
+            if grow_at:
+                w.daemon.set_chain(blocks)
+                w.poll()
+        except (world.SyncFailed, world.Stalled) as e:
+            raise UninterruptedWrong('the uninterrupted run died: ' +
+                                     repr(e.args[0] if e.args else e)[:200])
         ref_final = observe.ref_at(blocks, len(blocks) - 1, ACT)
         obs_final = observe.observe(w, ref_final, what=crashrun.WHAT)
         bad = observe.compare(obs_final, ref_final, crashrun.WHAT)
